@@ -46,6 +46,33 @@ pub fn install_panic_hook() {
     }));
 }
 
+struct FormatAndDiscard;
+
+struct KvSink(String);
+
+impl slog::Serializer for KvSink {
+    fn emit_arguments(&mut self, key: slog::Key, val: &std::fmt::Arguments) -> slog::Result {
+        use std::fmt::Write;
+        let _ = write!(self.0, "{}={};", key, val);
+        Ok(())
+    }
+}
+
+impl slog::Drain for FormatAndDiscard {
+    type Ok = ();
+    type Err = slog::Never;
+    fn log(&self, record: &slog::Record, values: &slog::OwnedKVList) -> Result<(), slog::Never> {
+        use slog::KV;
+        use std::fmt::Write;
+        let mut sink = KvSink(String::with_capacity(128));
+        let _ = write!(sink.0, "{}", record.msg());
+        let _ = record.kv().serialize(record, &mut sink);
+        let _ = values.serialize(record, &mut sink);
+        std::hint::black_box(&sink.0);
+        Ok(())
+    }
+}
+
 pub struct Outcome {
     pub events: Vec<Event>,
     pub conns: Vec<ConnObs>,
@@ -82,9 +109,12 @@ fn start_server(
             Mode::Cancel => HandlerTaskMode::CancelOnDisconnect,
             Mode::Detached => HandlerTaskMode::Detached,
         },
-        log_headers: vec![],
+        // the per-request logger picks these up (present on most requests)
+        log_headers: vec!["X-Sim".into(), "x-extra-0".into(), "Content-Type".into()],
     };
-    let log = slog::Logger::root(slog::Discard, slog::o!());
+    // A drain that formats every record and every key-value pair (so that
+    // lazily evaluated log values really run) and throws the text away.
+    let log = slog::Logger::root(FormatAndDiscard, slog::o!());
     let mut b = ServerBuilder::new(api, SimCtx { world: world.clone() }, log)
         .config(cfg);
     if let Some(vp) = crate::api::version_policy(sp) {
